@@ -4,6 +4,8 @@
   Obligations are listed in harness/props/c35.py.
 -/
 import NiftyVerif.Lemmas.Response
+import NiftyVerif.Lemmas.ResponseLos4
+import NiftyVerif.Lemmas.Nft
 import NiftyVerif.Lemmas.LinOps
 import NiftyVerif.Props.C02
 
@@ -107,6 +109,8 @@ theorem los_weights_sum (shape : List Nat) (s e : List Rat) (lo hi : Rat) (h : c
     sumL ((losRow shape s e).map Prod.snd) = hi - lo := by
   unfold losRow
   rw [h]
+  show sumL ((losSeg shape s e lo hi).map Prod.snd) = hi - lo
+  unfold losSeg
   simp only [List.map_map]
   generalize List.mergeSort _ _ = X
   have hts : [lo] ++ X ++ [hi] = lo :: (X ++ [hi]) := by simp
@@ -120,6 +124,174 @@ theorem los_weights_sum (shape : List Nat) (s e : List Rat) (lo hi : Rat) (h : c
 /-- a line that misses the grid gets no weights -/
 theorem los_outside_empty (shape : List Nat) (s e : List Rat) (h : clipBox shape s e = none) :
     losRow shape s e = [] := by unfold losRow; rw [h]
+
+/-! ### LOSResponse: the transcription of `_comp_traverse` (Model/ResponseLos.lean) against the independent model -/
+section los
+open NiftyVerif.ResponseLos
+
+/-- **Refinement.**  `traverse eps` is the statement-by-statement transcription of `_comp_traverse` (clipping `d0/d1/dmin/dmax`
+    with the `direction == 0` sentinel, the `eps = 1e-7` end-point shrink, `c_first`, `np.arange` crossing parameters per axis,
+    the argsort merge, `pos1`, cumulative `±inc` steps, `np.diff`).  For every `eps ≥ 0`, every dimension and shape: if the shrunk
+    interval `[dmin+eps, dmax−eps]` is not empty, the point at `dmin+eps` lies on no grid plane of a moving axis, and no two
+    crossing parameters coincide (the line passes through no grid edge/corner), then the code's `(pixel, weight)` list IS the list
+    of the independent segment model `losSeg` on that parameter interval: the sub-segments between consecutive plane crossings,
+    each attributed to the pixel containing its midpoint.  (`eps = 0`: see `los_traverse_refines_zero`; the hypothesis at the entry
+    point then excludes lines that start outside the grid — which is exactly why the code needs its `1e-7`.) -/
+theorem los_traverse_refines (eps : ℚ) (heps : 0 ≤ eps) (shape : List ℕ) (s e : List ℚ)
+    (hl1 : shape.length = s.length) (hl2 : s.length = e.length)
+    (hne : (clipT shape s (dirOf s e)).1 + eps < (clipT shape s (dirOf s e)).2 - eps)
+    (hgen : ∀ se ∈ s.zip e, se.2 - se.1 ≠ 0 → ¬ Cross se.1 (se.2 - se.1) ((clipT shape s (dirOf s e)).1 + eps))
+    (hnd : ((events shape s (dirOf s e) ((clipT shape s (dirOf s e)).1 + eps)
+              ((clipT shape s (dirOf s e)).2 - eps)).map Prod.fst).Nodup) :
+    ResponseLos.traverse eps shape s e =
+      (losSeg shape s e ((clipT shape s (dirOf s e)).1 + eps) ((clipT shape s (dirOf s e)).2 - eps)).map
+        fun p => ((p.1 : ℤ), p.2) := by
+  have hlt : (clipT shape s (dirOf s e)).1 < (clipT shape s (dirOf s e)).2 := by linarith
+  have hnn : ∀ se ∈ s.zip e, 0 ≤ se.1 + ((clipT shape s (dirOf s e)).1 + eps) * (se.2 - se.1) ∧
+      0 ≤ se.1 + ((clipT shape s (dirOf s e)).2 - eps) * (se.2 - se.1) := by
+    intro se hse
+    obtain ⟨a, ha, h1, h2⟩ := boxAxes_zip shape s e hl1 hl2 se hse
+    have i1 := clipT_inside shape s (dirOf s e) hlt ((clipT shape s (dirOf s e)).1 + eps) (by linarith) (by linarith) a ha
+    have i2 := clipT_inside shape s (dirOf s e) hlt ((clipT shape s (dirOf s e)).2 - eps) (by linarith) (by linarith) a ha
+    rw [h1, h2] at i1 i2
+    exact ⟨i1.1, i2.1⟩
+  have key := traverseFrom_eq_losSeg shape s e _ _ hl1 hl2 hne hnn hgen hnd
+  rw [traverse_eq]
+  rw [if_neg (not_le.mpr hne)]
+  exact key
+
+/-- the `eps = 0` instance: the transcribed traversal equals the independent model on the whole clipped segment -/
+theorem los_traverse_refines_zero (shape : List ℕ) (s e : List ℚ)
+    (hl1 : shape.length = s.length) (hl2 : s.length = e.length)
+    (hne : (clipT shape s (dirOf s e)).1 < (clipT shape s (dirOf s e)).2)
+    (hgen : ∀ se ∈ s.zip e, se.2 - se.1 ≠ 0 → ¬ Cross se.1 (se.2 - se.1) (clipT shape s (dirOf s e)).1)
+    (hnd : ((events shape s (dirOf s e) (clipT shape s (dirOf s e)).1 (clipT shape s (dirOf s e)).2).map Prod.fst).Nodup) :
+    ResponseLos.traverse 0 shape s e =
+      (losSeg shape s e (clipT shape s (dirOf s e)).1 (clipT shape s (dirOf s e)).2).map fun p => ((p.1 : ℤ), p.2) := by
+  have := los_traverse_refines 0 le_rfl shape s e hl1 hl2 (by simpa using hne) (by simpa using hgen) (by simpa using hnd)
+  simpa using this
+
+/-- the weights the code emits for one line add up to the length of the traversed parameter interval — EVERY input, no
+    genericity (ties in the argsort, lines through corners, start on a grid plane included) -/
+theorem los_traverse_weights_sum (eps : ℚ) (shape : List ℕ) (s e : List ℚ)
+    (hne : (clipT shape s (dirOf s e)).1 + eps < (clipT shape s (dirOf s e)).2 - eps) :
+    sumL ((ResponseLos.traverse eps shape s e).map Prod.snd) =
+      ((clipT shape s (dirOf s e)).2 - eps) - ((clipT shape s (dirOf s e)).1 + eps) := by
+  rw [traverse_eq]
+  rw [if_neg (not_le.mpr hne)]
+  exact traverseFrom_weights_sum shape s _ _ _
+
+/-- … and each of them is non-negative — every input -/
+theorem los_traverse_weights_nonneg (eps : ℚ) (shape : List ℕ) (s e : List ℚ) :
+    ∀ p ∈ ResponseLos.traverse eps shape s e, 0 ≤ p.2 := by
+  rw [traverse_eq]
+  split
+  · simp
+  · rename_i h
+    exact traverseFrom_weights_nonneg shape s _ _ _ (le_of_lt (not_le.mp h))
+
+/-- every step of the emitted pixel sequence is `±inc[j]` of one moving axis `j` (consecutive pixels are face neighbours along
+    that axis, and the sign is the sign of the direction) — every input -/
+theorem los_traverse_steps (eps : ℚ) (shape : List ℕ) (s e : List ℚ) :
+    StepsOK (axes shape s (dirOf s e)) ((ResponseLos.traverse eps shape s e).map Prod.fst) := by
+  rw [traverse_eq]
+  split
+  · simp [StepsOK]
+  · exact traverseFrom_steps shape s _ _ _
+
+/-- the first emitted pixel is the pixel that contains the (shrunk) entry point `start + (dmin+eps)·direction` -/
+theorem los_traverse_first_pixel (eps : ℚ) (heps : 0 ≤ eps) (shape : List ℕ) (s e : List ℚ)
+    (hl1 : shape.length = s.length) (hl2 : s.length = e.length)
+    (hne : (clipT shape s (dirOf s e)).1 + eps < (clipT shape s (dirOf s e)).2 - eps) :
+    ((ResponseLos.traverse eps shape s e).map Prod.fst).head? =
+      some (flatF ((clipT shape s (dirOf s e)).1 + eps) (axes shape s (dirOf s e))) := by
+  have hlt : (clipT shape s (dirOf s e)).1 < (clipT shape s (dirOf s e)).2 := by linarith
+  rw [traverse_eq]
+  rw [if_neg (not_le.mpr hne)]
+  refine traverseFrom_first shape s _ _ _ ?_
+  refine axes_forall (fun s d => 0 ≤ s + ((clipT shape _ _).1 + eps) * d) shape s e ?_
+  intro se hse
+  obtain ⟨a, ha, h1, h2⟩ := boxAxes_zip shape s e hl1 hl2 se hse
+  have i1 := clipT_inside shape s (dirOf s e) hlt ((clipT shape s (dirOf s e)).1 + eps) (by linarith) (by linarith) a ha
+  rw [h1, h2] at i1
+  exact i1.1
+
+/-- every point of the code's clipped parameter interval lies inside the grid box `[0, shape]` (incl. the `direction == 0`
+    sentinel `±5·10¹¹` logic) -/
+theorem los_clip_inside (shape : List ℕ) (s dir : List ℚ) (hlt : (clipT shape s dir).1 < (clipT shape s dir).2) (t : ℚ)
+    (h1 : (clipT shape s dir).1 ≤ t) (h2 : t ≤ (clipT shape s dir).2) :
+    ∀ a ∈ boxAxes shape s dir, 0 ≤ a.2.1 + t * a.2.2 ∧ a.2.1 + t * a.2.2 ≤ (a.1 : ℚ) :=
+  clipT_inside shape s dir hlt t h1 h2
+
+-- non-vacuity: a 2-D line from inside pixel (0,0) to pixel (2,1) of a 3×2 grid meets every hypothesis of the refinement theorem
+-- (`List.mergeSort` is defined by well-founded recursion and does not reduce in the kernel, so the two sides are not evaluated
+--  here; the driver evaluates both on every generated line and the harness compares them — `los-refine-compared` in the evidence)
+example : ResponseLos.traverse 0 [3, 2] [3/4, 3/4] [13/4, 2] =
+    (losSeg [3, 2] [3/4, 3/4] [13/4, 2] (clipT [3, 2] [3/4, 3/4] (dirOf [3/4, 3/4] [13/4, 2])).1
+      (clipT [3, 2] [3/4, 3/4] (dirOf [3/4, 3/4] [13/4, 2])).2).map fun p => ((p.1 : ℤ), p.2) :=
+  los_traverse_refines_zero [3, 2] [3/4, 3/4] [13/4, 2] rfl rfl (by decide +kernel)
+    (genEntryB_spec _ _ _ (by decide +kernel)) (by decide +kernel)
+example : clipT [3, 2] [3/4, 3/4] (dirOf [3/4, 3/4] [13/4, 2]) = (0, 9/10) := by decide +kernel
+example : (events [3, 2] [3/4, 3/4] (dirOf [3/4, 3/4] [13/4, 2]) 0 (9/10)).map Prod.fst = [1/10, 1/2, 1/5] := by decide +kernel
+-- the point excluded by the `eps = 0` hypothesis `hgen`: a line entering through the low face (entry point ON a grid plane); there
+-- the code without its 1e-7 would emit a zero-length first segment and shift every later pixel by one row (driver output for
+-- `traverse 0 [3,2] [0,5/6] [4,13/6]`: pixels 0,2,3,5,7 — pixel 7 does not exist), with eps = 1e-7: pixels 0,1,3,5
+example : genEntryB [0, 5/6] [4, 13/6] 0 = false := by decide +kernel
+example : genEntryB [0, 5/6] [4, 13/6] (1/10000000) = true := by decide +kernel
+
+end los
+
+/-! ### Nufft / Gridder / VariablePositionNufft: explicit Fourier sums on a rational lattice (Model/Nft.lean) -/
+section nft
+open NiftyVerif.Nft
+
+/-- the matrix `E[k, j] = ω^{m_kj}`, `m_kj = Σ_d (k_d − N_d/2)·a_{j,d} mod M`, and the adjoint the operators use
+    (`Nufft.adjoint_times`, `Gridder.adjoint_times`, `VariablePositionNufft`) form an adjoint pair; the adjoint entries are the
+    conjugates `ω^{(M − m) mod M}` (conjugate transpose, `conj ω = ω⁻¹`) -/
+theorem nft_adjoint {cj : K → K} (hc : IsConj cj) {w : K} {M : Nat} (hM : 0 < M) (hw : w ^ M = 1) (hcw : cj w * w = 1)
+    (shape : List Nat) (a : List (List Int)) :
+    (∀ x y : Nat → K, inner cj (prodL shape) y (apply (nftCoo w M shape a) x)
+        = inner cj a.length (applyAdj cj (nftCoo w M shape a) y) x) ∧
+    (∀ r j, r < prodL shape → j < a.length →
+        dense (adj cj (nftCoo w M shape a)) j r = w ^ ((M - nftExpAt M shape a r j) % M)) :=
+  ⟨fun x y => Nft.nft_adjoint hc w M shape a x y, fun r j hr hj => nft_adjoint_dense hc hM hw hcw shape a r j hr hj⟩
+
+/-- what the driver returns (coefficient lists, no ω needed) evaluates to the matrix-vector products `E·x` and `Eᴴ·y` -/
+theorem nft_mono_apply_spec {cj : K → K} (hc : IsConj cj) {w : K} {M : Nat} (hM : 0 < M) (hw : w ^ M = 1) (hcw : cj w * w = 1)
+    (shape : List Nat) (a : List (List Int)) (x y : Nat → K) :
+    (∀ r, r < prodL shape → evalPoly w (monoApply M shape a x r) = apply (nftCoo w M shape a) x r) ∧
+    (∀ j, j < a.length → evalPoly w (monoApplyAdj M shape a y j) = applyAdj cj (nftCoo w M shape a) y j) :=
+  ⟨fun r hr => nft_mono_apply w hM shape a x r hr, fun j hj => nft_mono_applyAdj hc hM hw hcw shape a y j hj⟩
+
+/-- positions on the FFT grid give the (centred) DFT matrix: 1-D closed form `E[k,j] = ω^{kj}·ω^{(N − N/2) j}` … -/
+theorem nft_on_grid_is_dft {w : K} {N : Nat} (hw : w ^ N = 1) (k j : Nat) (hk : k < N) (hj : j < N) :
+    dense (nftCoo w N [N] (dftPos N)) k j = w ^ (k * j) * w ^ ((N - N / 2) * j) :=
+  Nft.nft_on_grid_is_dft hw k j hk hj
+
+/-- … and in every dimension, for every shape: the entry is the product over the axes of `(ω^{M/N_d})^{(k_d − N_d/2)·j_d}` -/
+theorem nft_on_grid_is_dft_nd {u : Kˣ} {M : Nat} (hM : 0 < M) (hu : u ^ M = 1) (shape : List Nat)
+    (r c : Nat) (hr : r < prodL shape) (hc : c < prodL shape) :
+    dense (nftCoo (u : K) M shape (gridPos M shape)) r c
+      = ((dftProd u M shape (unravel shape r) (unravel shape c) : Kˣ) : K) :=
+  Nft.nft_on_grid_is_dft_nd hM hu shape r c hr hc
+
+/-- periodicity: shifting any position coordinate by whole periods (`a_{j,d} ↦ a_{j,d} + M·z`, i.e. `pos ↦ pos + z/dst_d`)
+    leaves the matrix unchanged -/
+theorem nft_shift (w : K) (M : Nat) (z : Nat → Nat → Int) (shape : List Nat) (a : List (List Int)) :
+    nftCoo w M shape (shiftPos M z a) = nftCoo w M shape a := Nft.nft_shift w M z shape a
+
+/-- over ℂ with `ω = e^{2πi/M}` the model entry is the documented phase `exp(2πi·Σ_d (k_d − N_d/2)·a_{j,d}/M)` -/
+theorem nft_entry_is_phase {M : Nat} (hM : 0 < M) (shape : List Nat) (a : List (List Int)) (r j : Nat)
+    (hr : r < prodL shape) (hj : j < a.length) :
+    dense (nftCoo (omegaC M) M shape a) r j
+      = Complex.exp (2 * Real.pi * Complex.I * ((phase shape (unravel shape r) (a.getD j []) : Int) : ℂ) / M) :=
+  nft_entry_complex hM shape a r j hr hj
+
+-- non-vacuity over the Gaussian rationals (M = 4, ω = i): a 1-D table with an odd axis and its coefficient lists
+example : (CQ.I : CQ) ^ 4 = 1 ∧ CQ.conj CQ.I * CQ.I = 1 := ⟨cqI_root, cqI_conj⟩
+example : nftExp 4 [3] [[1], [-2]] = [(0, 0, 3), (0, 1, 2), (1, 0, 0), (1, 1, 0), (2, 0, 1), (2, 1, 2)] := by decide +kernel
+
+end nft
 
 -- non-vacuity: a concrete 2-D interpolation row and a concrete line of sight
 example : interpRow [4, 4] [1, 3] [(1/4 : Rat), 1/2] = [(7, 3/8), (4, 3/8), (11, 1/8), (8, 1/8)] := by decide +kernel
